@@ -37,6 +37,69 @@ CHECKS = {
         text="All 64,800 single-unit combinations of presence x feed turnout x baseline x percent-expected-vote x blocklist kind x policy x limits x threshold x estimand kind are enumerated by TLC (2-unit combinations in thorough), the eligibility rule is checked as an invariant in numbers, and every terminal state is replayed into the real get_units with frames, categories and derived columns compared exactly; client runs with outlier models on and unit counts around the threshold of 20 are validated by the trace spec.",
         note="Outlier-model flags are oracle inputs observed by a run-time wrapper; numeric boundary replay is at component level (the client's own call sequence).",
     ),
+    "C04": dict(
+        engine="arith",
+        technique="TLA+ spec (ConformalSplit.tla parts Corr and Rank) model-checked by TLC with exact rationals; every exported calibration scenario replayed into _compute_population_correction / get_unit_prediction_intervals; rank lemma grid bound to the real function; recorded calibration sets validated by Trace_ConformalSplit",
+        design_ref="DESIGN.md §5 C04, docs/arith.md",
+        text="The calibration clause (weighted coverage strictly above alpha(1+1/n_cal), robust = max, symmetric widening, floors) is an invariant of the code-shaped correction pipeline checked by TLC on every calibration set of n_cal 2-4 (scores -2..2 incl. ties/all-negative, weights 1/2/4) and n_cal 8, dyadic alphas; all exported scenarios (31,856 in quick) are replayed into the real functions and compared exactly; the probabilistic clause is decided as the finite rank lemma (every rank of the outstanding unit, n_cal <= 8 explicitly and the closed form on alpha permille x n_cal <= 60/400) with the code's rank choice bound on the same grid (59,880 real calls in quick).",
+        note="Exchangeability itself is an assumption; float ties admit named candidate neighbours; only get_unit_prediction_interval_bounds is stubbed in the scenario replay (real regressions in the recorded runs).",
+    ),
+    "C05": dict(
+        engine="arith",
+        technique="TLA+ spec (UniformSwing.tla) model-checked by TLC (weighted median = minimiser of the regression objective, closed form); exported scenarios replayed into CombinedDataHandler.get_units + NonparametricElectionModel.get_unit_predictions and through the client; recorded runs validated by Trace_UniformSwing",
+        design_ref="DESIGN.md §5 C05, docs/arith.md",
+        text="TLC checks MedianIsMinimiser / CommonFactor / FloorAtPartial on all scenarios of 3-5 reporting units over dyadic baselines; every exported unique-median scenario (7,749 in quick) is replayed into the real component functions and 266 through the full client with exact equality (rounding ties admit both neighbours); 60 real runs recorded and validated.",
+        note="Scenarios with a non-unique weighted median are excluded as the property states; the LP solver is trusted to return a minimiser.",
+    ),
+    "C06": dict(
+        engine="calls",
+        technique="TLA+ spec (BootstrapIntervals.tla: rank candidate sets, interpolated quantile bounds, straddle) model-checked by TLC on the alpha-permille x B grid and on all small draw vectors; real _get_quantiles / interval functions and real client tables validated by Trace_Bootstrap",
+        design_ref="DESIGN.md §5 C06",
+        text="TLC checks rank validity, monotonicity in alpha (hence nesting) and national-summary index validity for all 999 levels x B<=300 (1000 in thorough), and ordering / strict containment / nesting of unit and aggregate bounds for every sorted draw vector over a small range; the real _get_quantiles is validated on the whole grid (every rank in the candidate set), injected draw vectors through the real unit and aggregate interval functions must equal the spec's interpolated bounds, and every row of every table of real bootstrap client runs (B in 2/3/10/40, districts, fixed effects, lambda 0/1/CV, extrapolating units that stress the clips) is checked in the trace spec for ordering, nesting, |margin|<=1, turnout>=0, |unit margin|<=turnout.",
+        note="Statistical adequacy of bootstrap intervals is not claimed; millionths with exact signs; injection at the model-object boundary for the bounds clause.",
+    ),
+    "C07": dict(
+        engine="calls",
+        technique="TLA+ spec (RaceCalls.tla, one action per code step) model-checked by TLC; the whole exported decision table replayed into the real aggregate functions with injected bootstrap state; real client runs with call/stop lists validated by Trace_Bootstrap",
+        design_ref="DESIGN.md §5 C07",
+        text="TLC checks the call/stop invariants on the full one-contest decision table (11 predictions x 66 quantile pairs x called L/R/both/none x stopped = 5,808 rows, all exported) and on two-contest list shapes incl. unknown and doubly named contests; every exported row is replayed (state-level and district-level top aggregate, two interval levels) and compared exactly in thousandths, error rows must raise the dedicated exception; 24 (240) real client runs with random lists are paired with the list-free run and validated: clauses on top-level rows, untouched rows and all other tables bit-identical.",
+        note="Bootstrap state injected at the model-object boundary for the table replay (B=3, order-statistic quantile levels, bit-exact ties).",
+    ),
+    "C08": dict(
+        engine="calls",
+        technique="TLA+ spec (NationalSummary.tla: model-object state across aggregate computations, both modes, candidate sets for argsort ties) model-checked by TLC; injected scenarios, client runs and request-order histories validated by Trace_NationalSummary",
+        design_ref="DESIGN.md §5 C08",
+        text="TLC checks Ordered/Bounded/PredIsWinners/CalledCertain on every 2-contest scenario (4 predictions x 16x16 draw signs x call/stop lists x both modes) and HistoryIndependent/SizeChecked over all orders/supersets of requested aggregates; configs with the repaired-design switches off reproduce the F3 and F4 counterexamples; 8,000 (80,000) scenarios incl. 3-contest ones are injected on a real model object and the returned triple must be a candidate of the spec; real 3-state client runs are summarised after six request orders (bit-identical summaries, wrong-size dictionary rejected) and checked against their own state table.",
+        note="Hard threshold for the bounded/winners clauses; B=2, alpha=0.9 in injected scenarios; non-negative weights.",
+    ),
+    "C11": dict(
+        engine="ledger",
+        technique="TLA+ spec (LedgerDelta.tla: two-phase ledger with the action AddUnexpected and the Delta predicate over the two terminal states) model-checked by TLC; paired real runs (with / without the extra feed row) validated by Trace_LedgerDelta",
+        design_ref="DESIGN.md §5 C11",
+        text="TLC checks DeltaUnits/DeltaGroups/DeltaAlwaysAttributed for every 2-unit scenario x extra unit (known/new state, county, district) x policies x office kinds x five request lists; TLC-exported scenarios (600 in quick) and random larger elections are run twice through the real client for all three estimators; the trace spec recomputes both ledgers, requires the attributable groups to move by exactly the unit's votes (new group where needed) and every other row of every table to carry the same bit-level token.",
+        note="Extra unit id well-formed for the unit type; common rows keep their order; F12 (bootstrap, extra unit in a state with no other row) is an open known finding.",
+    ),
+    "C14": dict(
+        engine="arith",
+        technique="TLA+ spec (ConformalSplit.tla parts Gate and Split with float-tie candidate sets) model-checked by TLC on the alpha-permille x n grid; real minimum/fraction functions validated on the whole grid, real regressions on the boundary band, client end-to-end at n = need-1/need/need+1 via Trace_ConformalSplit",
+        design_ref="DESIGN.md §5 C14, docs/arith.md",
+        text="TLC checks GateExact, TrainAtLeastOne, CalAtLeastOne, SplitPartitions, QuantileLevelBelowOne, RankExists for all 998 permille levels x n<=600 (3000 in thorough) and every tie resolution, plus multi-level requests for the three estimators and duplicate ids; the F6 switch reproduces the zero-training-rows counterexample; the real get_minimum_reporting_units/_compute_conf_frac are validated on the whole grid, ~5,400 real split probes with real regressions and 344 client runs around the gate (all three estimators, duplicates) are validated by the trace spec.",
+        note="Float ties admit the named neighbour (e.g. minimum 20 at alpha 0.9, pinned by the repo's tests).",
+    ),
+    "C16": dict(
+        engine="featurizer",
+        technique="TLA+ spec (FeaturizerSpec.tla, one action per Featurizer step) model-checked by TLC; exported terminal states replayed into the real Featurizer with exact rational comparison; Featurizer calls recorded in real estimate runs validated by Trace_FeaturizerSpec",
+        design_ref="DESIGN.md §5 C16, docs/featurizer.md",
+        text="TLC checks SameColumns, NonConstant, OneAbsorbed, SeenLevel, UnseenLevel, Centered, OtherPooled, StateCopiesOnlyReporting, SliceDiscipline on all row/level assignments of the quick families (~250k states; 7.4M in thorough); 11,992 exported terminal states are replayed into the real Featurizer and compared (column lists, matrices as 0/1/<<1,k+1>>, centred values as exact rationals); the three callers' positional slicing is validated on recorded real runs of all estimators.",
+        note="scale_features is not modelled (no caller uses it); F-C16-prefix (name-prefix collision) is an open known finding, not reachable with the client's frames.",
+    ),
+    "C19": dict(
+        engine="versions",
+        technique="TLA+ spec (S3Versions.tla: paging service with arbitrary page cuts, recursive client, download queue with failures) model-checked by TLC; every exported behaviour replayed against the real S3VersionUtil / VersionedDataHandler with scripted fakes; recorded random histories validated by Trace_S3Versions",
+        design_ref="DESIGN.md §5 C19, docs/versions.md",
+        text="TLC checks ExactWindow, Sampled, OwnStamp, SkipFailures, NoData for every history of <=5 versions (equal timestamps included), every paging, window, sampling step and failure subset (1.05M states; <=6 versions in thorough); all 14,790 exported behaviours are replayed against the real code whose s3 client and transfer manager are scripted fakes following the behaviour's choices; 480 (6,400) random histories of <=40 versions are recorded and validated as behaviours of the specification.",
+        note="Listing is newest-first and pages are non-empty prefixes (the service contract); the early stop is admitted, not demanded.",
+    ),
 }
 
 NOT_YET = "check not built yet in this round (planned, see DESIGN.md §5)"
